@@ -78,7 +78,9 @@ impl From<&Rgba> for Hsla {
             } * (360. / 6.);
             let mm = max + min;
             let sat = d / if mm > 1. { -mm + 2. } else { mm };
-            Self::new(hue, sat, mm / 2., rgba.alpha(), false)
+            // Rounding in max + min can push this above one (or all the
+            // way to infinity if -mm + 2 rounds to zero).
+            Self::new(hue, sat.min(1.), mm / 2., rgba.alpha(), false)
         }
     }
 }
